@@ -25,6 +25,7 @@ def run(idx, rep, tier):
     purity.r_pureargs(idx, rep, ["distance3d.containment_test", "distance3d.utils"], floor=5)
     onsegment.r_halfsize(idx, rep, ["distance3d.containment_test"] + [x.name for x in idx.lib_modules() if x.name.startswith("distance3d.distance")], floor=3)
     partition.r_isolated(idx, rep, ["distance3d.containment_test"], floor=0)      # no instance today (the predicates clamp with min/max); armed for rewritten clamps, positive example built in
+    misc2.r_insidezero(idx, rep)      # containment and point_to_ellipsoid agree on interior points
     misc2.r_dupcond(idx, rep, [m.name for m in idx.lib_modules()], floor=3)
     safediv.r_sqrtdomain(idx, rep, modules=["distance3d.containment_test"], floor=0, unknown_ceiling=2, sqrt_calls=("np.sqrt", "math.sqrt"))
     unpack.r_unpack(idx, rep, floor=1)
